@@ -3,8 +3,8 @@ SPECIFICATION Spec
 CONSTANTS
   MaxCalls = 2
   MemoAlways = FALSE
-  TopoIds = {"line3", "line4r", "line2s", "line3m", "rect32", "rect32r", "rect22m"}
-  NTargetSets = 3
+  TopoIds = {"line3", "line4r", "line2s", "line4m", "rect32", "rect32r", "rect33m"}
+  NTargetSets = 2
 INVARIANT ImageOK
 INVARIANT PickedContains
 INVARIANT OutsideRaises
